@@ -102,8 +102,11 @@ func init() {
 			}
 			for _, scheme := range versSchemes {
 				v := versVersionTemplates(scheme, "quick")[0]
-				for _, r := range []string{"vers:" + scheme + "/>=" + v + "|<" + v, "vers:" + scheme + "/*", "vers:" + scheme + "/" + v, scheme + "/>=" + v} {
-					for _, p := range []string{v, "{l}{l}"} {
+				// well-formed, '*', missing comparator, missing prefix, and white space (space, tab, CR, LF)
+				// before / after the range and the version: the CLI must hand its arguments to the library as they are
+				for _, r := range []string{"vers:" + scheme + "/>=" + v + "|<" + v, "vers:" + scheme + "/*", "vers:" + scheme + "/" + v, scheme + "/>=" + v,
+					"{w}vers:" + scheme + "/>=" + v, "vers:" + scheme + "/>=" + v + "{w}"} {
+					for _, p := range []string{v, "{l}{l}", "{w}" + v, v + "{w}"} {
 						out = append(out, &Config{ID: fmt.Sprintf("C15/vers/%s/%s|%s", scheme, r, p), Pkg: cmdPkg, Func: "C15VersContains", Args: []ArgSpec{ArgTmpl(r), ArgTmpl(p)}})
 					}
 				}
